@@ -123,19 +123,20 @@ def child_worker(acct, lst, ns):
 
 
 def main():
+    first, nseeds, steps = (int(a) for a in sys.argv[1:4]) if len(sys.argv) > 3 else (0, 6, 60)
     with ServerProcess() as m:
-        for seed in range(6):
-            x = drive('list', lambda: m.list([3, 1, 2]), lambda: [3, 1, 2], LIST_OPS, seed)
+        for seed in range(first, first + nseeds):
+            x = drive('list', lambda: m.list([3, 1, 2]), lambda: [3, 1, 2], LIST_OPS, seed, steps)
             if x:
                 local, proxies = x
                 if proxies[0].__getitem__(slice(None)) != local or proxies[1].__len__() != len(local):
                     fails.append(f'list seed {seed}: final state differs between proxies and reference')
-            x = drive('dict', lambda: m.dict({'a': 1, 'b': 2}), lambda: {'a': 1, 'b': 2}, DICT_OPS, seed)
+            x = drive('dict', lambda: m.dict({'a': 1, 'b': 2}), lambda: {'a': 1, 'b': 2}, DICT_OPS, seed, steps)
             if x:
                 local, proxies = x
                 if proxies[0].copy() != local or proxies[1].copy() != local:
                     fails.append(f'dict seed {seed}: final state differs')
-            x = drive('custom', lambda: m.Account(10), lambda: Account(10), ACCT_OPS, seed)
+            x = drive('custom', lambda: m.Account(10), lambda: Account(10), ACCT_OPS, seed, steps)
             if x:
                 local, proxies = x
                 if proxies[1].history() != local.log:
